@@ -87,6 +87,18 @@ CHECKS = {
         design_ref="DESIGN.md section 3, C13",
         note="Bundled-registry answers are compared as digests rounded to 10 significant digits (different cache paths may multiply floats in a different "
              "order)."),
+    "C14": dict(
+        technique="TLA+ spec (Systems) model-checked with TLC for membership closure under edits and for rule inversion / base-unit substitution; TLC behaviours and states replayed on real Group / System objects and registries; bundled groups, systems and to_base_units validated by the TLC trace spec Trace_Sys",
+        text="MC_C14g explores every sequence of up to 4 edits (add/remove units, add/remove used groups, system add/remove groups, interleaved member "
+             "queries) over three groups and two systems and checks that members are the least fixed point, cycles are refused, a system's members are "
+             "those of its groups and edits are immediate; MC_C14b checks for five systems (rules new and new:old, also with exponent 2) that base-unit "
+             "re-expression uses only base units, preserves dimensionality and physical value and is idempotent.  Behaviours of length 3 are executed "
+             "on real objects (members of every group and system and restricted compatible-unit listings after each step); every (system, probe) is "
+             "put through to_base_units, ito_base_units, get_base_units and default_system switching in random order; over the bundled registry, "
+             "members of all groups and systems, to_base_units of canonical and compound units in 7 systems and restricted listings are recomputed by "
+             "Trace_Sys from the reader's @group / @system blocks.",
+        design_ref="DESIGN.md section 3, C14",
+        note="Irrational base factors (fractional powers, Planck / atomic compounds overflowing exact arithmetic) are compared on the container only."),
     "C04": dict(
         technique="TLA+ spec (UnitAlgebra, LinAlg) model-checked with TLC; TLC-generated cases replayed into pint; recorded operations validated by a TLC trace spec",
         text="TLC checks exhaustively (3 names, exponents -2..2 and +-1/2, all pairs, all powers, triples) that the operational model of "
